@@ -210,19 +210,26 @@ func (m *fieldModel) planner(c *Ctx) []planStep {
 	anyFn := w.Fn("shovel/glf", "any")
 	diff := w.Fn("shovel/glf", "difference")
 	var steps []planStep
-	for _, call := range callsToFn(nw, anyFn) {
-		st := planStep{pos: call.Pos()}
-		b := call.Call.Args[1]
+	// one step per evaluation of any(needs, table minus cheaper tables): written
+	// out in New, or inside a helper that New calls once per step (then the
+	// helper's parameters are replaced by the arguments of each call)
+	build := func(call *ssa.Call, subst func(ssa.Value) ssa.Value, pos token.Pos) planStep {
+		st := planStep{pos: pos}
+		b := subst(call.Call.Args[1])
 		if t := m.tableOfGlobal(b); t != "" {
 			st.table = t
 		} else if dc, ok := b.(*ssa.Call); ok && staticCallee(dc) == diff {
-			st.table = m.tableOfGlobal(dc.Call.Args[0])
-			if vs, ok := varargValues(dc.Call.Args[1]); ok {
+			st.table = m.tableOfGlobal(subst(dc.Call.Args[0]))
+			if vs, ok := varargValues(subst(dc.Call.Args[1])); ok {
 				for _, v := range vs {
-					st.minus = append(st.minus, m.tableOfGlobal(v))
+					st.minus = append(st.minus, m.tableOfGlobal(subst(v)))
 				}
 			}
 		}
+		return st
+	}
+	for _, call := range callsToFn(nw, anyFn) {
+		st := build(call, func(v ssa.Value) ssa.Value { return v }, call.Pos())
 		t, _ := boolEdges(call)
 		for _, e := range t {
 			for _, in := range e.To.Instrs {
@@ -243,6 +250,78 @@ func (m *fieldModel) planner(c *Ctx) []planStep {
 			}
 		}
 		steps = append(steps, st)
+	}
+	seenHelper := map[*ssa.Function]bool{}
+	for _, ci := range callsIn(nw) {
+		h := regionCallee(ci)
+		if h == nil || h == anyFn || h == diff || seenHelper[h] || !isRepoFunc(h) {
+			continue
+		}
+		anys := callsToFn(h, anyFn)
+		if len(anys) != 1 {
+			continue
+		}
+		seenHelper[h] = true
+		anyCall := anys[0]
+		// the helper reports "claimed" (a bool result that is true exactly on
+		// the any-true path) and returns the reduced needs on that path
+		anyT, _ := boolEdges(anyCall)
+		flagIdx, needsIdx := -1, -1
+		var subArg ssa.Value
+		for _, r := range returnsOf(h) {
+			vals := returnValues(r)
+			for i, v := range vals {
+				if cst, ok := v.(*ssa.Const); ok && cst.Value != nil && cst.Value.String() == "true" && guardedByEdges(h, r, anyT) {
+					flagIdx = i
+				}
+				if dc, ok := v.(*ssa.Call); ok && staticCallee(dc) == diff && guardedByEdges(h, r, anyT) {
+					needsIdx = i
+					if vs, ok := varargValues(dc.Call.Args[1]); ok && len(vs) == 1 {
+						subArg = vs[0]
+					}
+				}
+			}
+		}
+		// "true" must not be returned on any other path
+		if flagIdx >= 0 {
+			for _, r := range returnsOf(h) {
+				vals := returnValues(r)
+				if cst, ok := vals[flagIdx].(*ssa.Const); !ok || cst.Value == nil {
+					flagIdx = -1
+					break
+				} else if cst.Value.String() == "true" && !guardedByEdges(h, r, anyT) {
+					flagIdx = -1
+					break
+				}
+			}
+		}
+		if flagIdx < 0 || needsIdx < 0 {
+			continue
+		}
+		for _, cs := range callsToFn(nw, h) {
+			subst := func(v ssa.Value) ssa.Value {
+				if p, ok := v.(*ssa.Parameter); ok && p.Parent() == h {
+					if i := paramIndex(p); i >= 0 && i < len(cs.Call.Args) {
+						return cs.Call.Args[i]
+					}
+				}
+				return v
+			}
+			st := build(anyCall, subst, cs.Pos())
+			if subArg != nil {
+				st.subTable = m.tableOfGlobal(subst(subArg))
+			}
+			if fv := extractOf(cs, flagIdx); fv != nil {
+				for _, ref := range *fv.Referrers() {
+					if x, ok := ref.(*ssa.Store); ok && x.Val == fv {
+						if f, _ := fieldOf(x.Addr); f != nil {
+							st.flag = f
+						}
+					}
+				}
+			}
+			steps = append(steps, st)
+		}
 	}
 	return steps
 }
@@ -307,14 +386,21 @@ func (m *fieldModel) dispatch(c *Ctx) {
 			}
 		}
 	}
-	// base writes: stores in Get itself (the no-header arm builds blocks with Number)
-	allInstrs(get, func(in ssa.Instruction) {
-		if st, ok := in.(*ssa.Store); ok {
-			if f, _ := fieldOf(st.Addr); f != nil && isEthStructField(f, w) {
-				m.base[f] = true
-			}
+	// base writes: stores in Get itself or in a plain helper it calls (the
+	// no-header arm builds blocks that carry only their number); the fetch
+	// routines (methods of Client) are accounted for per flag
+	for _, f := range NewRegion(get).Funcs() {
+		if f != get && f.Signature.Recv() != nil && repoNamedIs(f.Signature.Recv().Type(), "jrpc2", "Client") {
+			continue
 		}
-	})
+		allInstrs(f, func(in ssa.Instruction) {
+			if st, ok := in.(*ssa.Store); ok {
+				if fd, _ := fieldOf(st.Addr); fd != nil && isEthStructField(fd, w) {
+					m.base[fd] = true
+				}
+			}
+		})
+	}
 }
 
 // taggedFields: struct fields (recursively through slices/embedded structs)
